@@ -33,6 +33,9 @@ ASSUMPTIONS = ['.index files are generated well-formed', 'ZIP member times have 
 
 EXTS = ['', '.txt', '.mib', '.my', '.TXT', '.MIB', '.MY']
 OPTS = ['fuzzyMatching', 'originalMatching', 'uppercaseMatching', 'lowcaseMatching']
+# mid-January and mid-July of several years (UTC), well away from any daylight-saving transition
+SEASONS = [1484480000, 1500000000, 1516000000, 1531600000, 1547500000, 1563100000]
+ZONES = [None, None, 'CET-1CEST,M3.5.0,M10.5.0/3', 'EST5EDT,M3.2.0,M11.1.0', 'AEST-10AEDT,M10.1.0,M4.1.0/3', 'IST-5:30']
 T0 = 1500000000   # even
 
 
@@ -86,11 +89,11 @@ def build_zip(entries):
         for kind, x in order:
             if kind == 'file':
                 path, data, mtime, fl = x
-                zi = zipfile.ZipInfo(path, time.gmtime(mtime)[:6])
+                zi = zipfile.ZipInfo(path, core.R.localtime(mtime)[:6])
                 zi.compress_type = zipfile.ZIP_STORED if fl.get('corrupt') else zipfile.ZIP_DEFLATED
                 z.writestr(zi, data)
             else:
-                zi = zipfile.ZipInfo(x, time.gmtime(T0)[:6])
+                zi = zipfile.ZipInfo(x, core.R.localtime(T0)[:6])
                 z.writestr(zi, build_zip(inner[x]))
     out = buf.getvalue()
     for path, data, mtime, fl in entries:
@@ -156,7 +159,11 @@ def run(scn):
     def V(clause, msg, **facts):
         facts.setdefault('kind', scn['kind'])
         viol.append({'clause': clause, 'key': '%s|%s|%s' % (clause, facts.get('what', ''), scn['kind']), 'facts': facts, 'message': msg})
+    tz = scn.get('tz')
     try:
+        if tz:
+            os.environ['TZ'] = tz
+            time.tzset()
         top = materialise(scn, root)
         o = dict(scn.get('options', {}))
         name = scn['request']
@@ -178,6 +185,10 @@ def run(scn):
                             rd.setOptions(useIndexFile=False)
                 elif scn.get('ignoreErrors') is False:
                     rd = ZipReader(top, ignoreErrors=False).setOptions(**ropts)
+                if scn.get('second_opts') is not None:
+                    # the same URL handed to getReadersFromUrls once more with other options (as mibdump does for
+                    # sources vs borrowers): must not affect the reader obtained first
+                    getReadersFromUrls(make_url(scn, top), **scn['second_opts'])
                 w.end_op('ok')
             except BaseException as e:  # noqa
                 if isinstance(e, (core.StepBudget, core.WorldTimeout)):
@@ -306,6 +317,9 @@ def run(scn):
         return {'violations': viol, 'sig': sig, 'nontrivial': len(scn['tree']) >= 2 or bool(w.fired), 'events': len(w.log), 'sim_s': 0,
                 'fired': dict(w.fired), 'probes': probes, 'fp': fp, 'fph': fph, 'comps': {'reader.getData(real)': max(1, len(results))}, 'result': rescls}
     finally:
+        if tz:
+            os.environ['TZ'] = 'UTC'
+            time.tzset()
         core.drop_root(root)
 
 
@@ -420,7 +434,7 @@ def generate(rng, tier):
         if path in used or any(p.startswith(path + '/') or path.startswith(p + '/') for p in used):
             continue
         used.add(path)
-        e = {'path': path, 'hex': _hex(gen_content(rng, path)), 'mtime': T0 + 2 * rng.randrange(0, 50000)}
+        e = {'path': path, 'hex': _hex(gen_content(rng, path)), 'mtime': rng.choice(SEASONS) + 2 * rng.randrange(0, 600000)}
         if kind == 'zip' and rng.random() < 0.06:
             e['corrupt'] = True
         tree.append(e)
@@ -437,12 +451,12 @@ def generate(rng, tier):
                 path = rng.choice(['vendor%d.zip!/mibs.zip!/' % (j + 1), 'vendor%d.zip!/mibs.zip!/d/' % (j + 1), 'inner.zip!/in2.ZIP!/', '']) + base
             if path not in used and not any(p.startswith(path + '/') or path.startswith(p + '/') for p in used):
                 used.add(path)
-                tree.append({'path': path, 'hex': _hex(gen_content(rng, path)), 'mtime': T0 + 2 * rng.randrange(0, 50000)})
+                tree.append({'path': path, 'hex': _hex(gen_content(rng, path)), 'mtime': rng.choice(SEASONS) + 2 * rng.randrange(0, 600000)})
         if kind == 'zip' and rng.random() < 0.7:
             path = 'vendor9.zip!/mibs.zip!/' + rng.choice(cands)
             if path not in used:
                 used.add(path)
-                tree.append({'path': path, 'hex': _hex(gen_content(rng, path)), 'mtime': T0 + 2 * rng.randrange(0, 50000)})
+                tree.append({'path': path, 'hex': _hex(gen_content(rng, path)), 'mtime': rng.choice(SEASONS) + 2 * rng.randrange(0, 600000)})
         scn['more_requests'] = others
     if kind == 'dir':
         scn['url_style'] = rng.choice(['bare', 'file'])
@@ -472,6 +486,11 @@ def generate(rng, tier):
                        'sites': sorted(rng.sample(['os.stat', 'os.listdir', 'open', 'file.read'], rng.randrange(1, 5)))}
     if rng.random() < 0.2:
         scn['repeat'] = 2
+    tz = rng.choice(ZONES)
+    if tz:
+        scn['tz'] = tz
+    if rng.random() < 0.15:
+        scn['second_opts'] = rng.choice([{'fuzzyMatching': False}, {'lowcaseMatching': False, 'uppercaseMatching': False}, {'originalMatching': False}, {}])
     return scn
 
 
@@ -486,7 +505,7 @@ def shrink(scn):
         s = copy.deepcopy(scn)
         del s['tree'][i]
         yield s
-    for k in ('maxMibSize', 'index', 'empty_dirs', 'repeat', 'recursive', 'ignoreErrors', 'useIndexFile', 'notazip', 'more_requests'):
+    for k in ('maxMibSize', 'index', 'empty_dirs', 'repeat', 'recursive', 'ignoreErrors', 'useIndexFile', 'notazip', 'more_requests', 'tz', 'second_opts'):
         if k in scn:
             s = copy.deepcopy(scn)
             s.pop(k)
